@@ -1,4 +1,4 @@
-import Pds.Proofs.KernelTie.Ctor
+import Pds.Proofs.KernelTie.CtorQf
 import Pds.Proofs.KernelTie.Quotient
 import Pds.Proofs.KernelTie.QfOps
 import Pds.Proofs.KernelTie.QfUnion
